@@ -145,7 +145,11 @@ def e2_drain(ctx, rep):
         if tt["k"] == "call":
             ss = Site(nn.body, nn.bb, tt)
             if ss.ck in ("std::vec::Vec::is_empty", "std::vec::Vec::len") and ss.term["args"] and strip_wrap(bp.arg_term(nn.bb, 0)) == strip_wrap(vt):
-                hk.add(nk)
+                # only a look at the vector *after* the before_effect hooks had their say: a
+                # length read before them is stale once a middleware added or removed effects
+                later = G.reach_after([nk], avoid=P.recv)
+                if not any(hk_ in later for hk_, _s in P.ev.get("HOOK:before_effect", [])):
+                    hk.add(nk)
     if hk and P.recv:
         rep.check(G.every_path_hits(P.recv, P.recv, hk), R, "effect-phase-on-every-pass", ctx.where(body, h), "every received action reaches the effect phase (hand-over loop or its emptiness test)", "the effect phase is skipped on some pass (e.g. when the reducers answered Keep): returned effects are never run")
     # per iteration: exhaustive match, one hand-over per variant
